@@ -65,6 +65,8 @@ fn main() {
         opaque: Vec::new(),
         req_ignore_assign: Vec::new(),
         effect_arg: None,
+        effect_args: None,
+        try_slots: None,
     };
     let _ = FEATURES.set(spec.cfg_features.clone());
     let mut results = Vec::new();
